@@ -13,7 +13,12 @@ actions: ["open", addr_index] | ["send", conn_ref, nbytes] | ["close", conn_ref,
 conn_ref: -1 = client, k >= 0 = k-th server connection the layer created (modulo their number).
 
 The scripted layer behaves like a legal layer: it never reuses a Server object, only sends on connections whose
-state has CAN_WRITE, and only closes connections that are not CLOSED (real layers act on established connections).
+state has CAN_WRITE, only closes connections that are not CLOSED (real layers act on established connections), and
+it starts no new upstream connections and requests no wakeups in reaction to a ConnectionClosed or failed
+OpenConnectionCompleted event or once the client connection is CLOSED (no mitmproxy layer reconnects/retries when a
+connection goes away or cannot be established; hooks, e.g. error hooks,
+may still be started).  Without this rule a "layer" could keep creating connection tasks while handle_client tears
+the connection down, which handle_client is not designed to survive and real layers never do.
 """
 from __future__ import annotations
 
@@ -67,6 +72,18 @@ class World:
         self.nevents = 0
         self.handler = None
         self.returned = False
+        self.task_server = {}  # open_connection task -> server index (known once it called open_connection)
+        self.net.on_call = self._on_call
+
+    def _on_call(self, call):
+        """which of the layer's Server objects is this open_connection call for? (the calling task is its handler)"""
+        cur = asyncio.current_task()
+        call["server"] = None
+        for conn, io in self.handler.transports.items():
+            if io.handler is cur:
+                call["server"] = self.conn_index(conn)
+                self.task_server[cur] = call["server"]
+        self.log("connect_call", call["server"], call["i"])
 
     def conn_index(self, conn):
         if conn is self.handler.client:
@@ -115,8 +132,12 @@ class World:
                  getattr(event, "reply", None) if isinstance(event, events.OpenConnectionCompleted) else None)
         reactions = self.plan.get("reactions", ())
         out = []
+        client_gone = (self.handler.client.state is ConnectionState.CLOSED or isinstance(event, events.ConnectionClosed)
+                       or (isinstance(event, events.OpenConnectionCompleted) and event.reply is not None))
         for a in (reactions[k] if k < len(reactions) else ()):
             op = a[0]
+            if client_gone and op in ("open", "wakeup"):
+                continue
             if op == "open":
                 s = connection.Server(address=ADDRS[a[1] % len(ADDRS)])
                 self.sidx[id(s)] = len(self.servers)
@@ -188,47 +209,95 @@ def run_plan(plan, fault=None, max_iter=60_000):
 
 
 # ---------------------------------------------------------------------------------------------- plan generator
-def plan_strategy(max_timeout=3, max_conn=9):
-    """Hypothesis strategy for plans.  Delays are drawn relative to the timeout (fractions of it +- jitter) and
-    small absolute values, so that deadlines, hook ends and I/O completions collide and interleave."""
+class Tape:
+    """decision tape: one generated byte per decision; an exhausted tape yields 0 = the simplest choice"""
+    __slots__ = ("d", "i")
+
+    def __init__(self, data):
+        self.d = data
+        self.i = 0
+
+    def byte(self):
+        i = self.i
+        self.i = i + 1
+        return self.d[i] if i < len(self.d) else 0
+
+    def below(self, n):
+        return self.byte() % n
+
+    def pick(self, seq):
+        return seq[self.byte() % len(seq)]
+
+    def flag(self, num=1, den=8):
+        return self.byte() % den >= den - num
+
+
+_OUTCOME = ["ok"] * 6 + ["err", "hang"]
+_CONNECT = ["ok"] * 6 + ["err", "err", "hang"]
+_OVERSHOOT = [0, 0, 1, 1024, 2 ** 18]
+
+
+def decode_plan(data, max_timeout=3, max_conn=9):
+    """bytes -> plan.  Delays are small absolute values or fractions of the timeout +- jitter, so that deadlines,
+    hook ends and I/O completions collide and interleave.  Construction, never rejection."""
+    t = Tape(data)
+    timeout = 1 + t.below(max_timeout)
+    T = timeout * 1024
+
+    def delay():
+        m = t.byte()
+        if m < 144:
+            return m % 7
+        return max(0, (1 + m % 6) * T // 4 + (m // 6) % 5 - 2)
+
+    def item():
+        m = t.byte()
+        if m % 8 == 6:
+            return "eof"
+        if m % 8 == 7:
+            return "err"
+        return bytes([m]) * (1 + m % 3)
+
+    def reads(n):
+        return [[delay(), item()] for _ in range(t.below(n + 1))]
+
+    def drains(n):
+        return [[delay() if t.flag(1, 2) else 0, t.pick(_OUTCOME)] for _ in range(t.below(n + 1))]
+
+    overshoots = [t.pick(_OVERSHOOT) for _ in range(t.below(7))]
+    client = {"reads": reads(5), "drains": drains(3), "eof_err": t.flag()}
+    connects = [{"delay": delay(), "outcome": t.pick(_CONNECT), "reads": reads(3), "drains": drains(2),
+                 "eof_err": t.flag(), "close_err": t.flag()} for _ in range(t.below(max_conn + 1))]
+    hooks = [[delay() if t.flag(1, 2) else 0, t.flag()] for _ in range(t.below(15))]
+    reactions = []
+    for _ in range(t.below(11)):
+        m = t.byte()
+        if m % 8 == 7 and max_conn >= 5:  # burst of opens to one address: the per-address bound comes into play
+            reactions.append([["open", (m >> 3) & 1]] * (5 + (m >> 4) % (max_conn - 4)))
+            continue
+        acts = []
+        for _ in range(m % 5):
+            k = t.byte()
+            op = k % 8
+            if op <= 2:
+                acts.append(["open", (k >> 3) & 1])
+            elif op == 3:
+                acts.append(["send", (k >> 3) % 10 - 1, 1 + (k >> 7)])
+            elif op == 4:
+                acts.append(["close", (k >> 3) % 10 - 1, bool(k >> 7)])
+            elif op == 5:
+                acts.append(["hook", bool(k >> 7)])
+            elif op == 6:
+                acts.append(["wakeup", delay()])
+            else:
+                acts.append(["send", -1, 1])
+        reactions.append(acts)
+    return {"timeout": timeout, "overshoots": overshoots, "client": client, "connects": connects, "hooks": hooks,
+            "reactions": reactions}
+
+
+def plan_strategy(max_timeout=3, max_conn=9, size=320):
+    """Hypothesis strategy for plans: a fixed-size generated byte tape decoded by ``decode_plan`` (one draw per case
+    keeps generation cheap; shrinking towards zero bytes shrinks towards the simplest plan)."""
     from hypothesis import strategies as st
-
-    def build(timeout):
-        T = timeout * 1024
-
-        small = st.integers(0, 6)
-        frac = st.tuples(st.integers(1, 6), st.integers(-2, 2)).map(lambda p: max(0, p[0] * T // 4 + p[1]))
-        delay = st.one_of(small, small, frac)
-        item = st.one_of(st.binary(min_size=1, max_size=3), st.binary(min_size=1, max_size=3),
-                         st.sampled_from(["eof", "err"]))
-        reads = st.lists(st.tuples(delay, item), max_size=5)
-        outcome = st.sampled_from(["ok", "ok", "ok", "ok", "ok", "ok", "err", "hang"])
-        drains = st.lists(st.tuples(st.one_of(st.just(0), delay), outcome), max_size=3)
-        flag = st.sampled_from([False] * 7 + [True])
-        conn = st.fixed_dictionaries({
-            "delay": delay,
-            "outcome": st.sampled_from(["ok"] * 6 + ["err", "err", "hang"]),
-            "reads": reads, "drains": drains, "eof_err": flag, "close_err": flag})
-        hook = st.tuples(st.one_of(st.just(0), st.just(0), delay), flag)
-        ref = st.integers(-1, 8)
-        action = st.one_of(
-            st.tuples(st.just("open"), st.integers(0, 1)),
-            st.tuples(st.just("open"), st.integers(0, 1)),
-            st.tuples(st.just("send"), ref, st.integers(1, 4)),
-            st.tuples(st.just("close"), ref, st.booleans()),
-            st.tuples(st.just("hook"), st.booleans()),
-            st.tuples(st.just("wakeup"), delay),
-        )
-        burst = st.tuples(st.integers(min(5, max_conn), max_conn), st.integers(0, 1)).map(lambda p: [("open", p[1])] * p[0])
-        reaction = st.one_of(st.lists(action, max_size=4), st.lists(action, max_size=4), st.lists(action, max_size=2),
-                             burst)
-        return st.fixed_dictionaries({
-            "timeout": st.just(timeout),
-            "overshoots": st.lists(st.sampled_from([0, 0, 1, 1024, 2 ** 18]), max_size=6),
-            "client": st.fixed_dictionaries({"reads": reads, "drains": drains, "eof_err": flag}),
-            "connects": st.lists(conn, max_size=max_conn),
-            "hooks": st.lists(hook, max_size=14),
-            "reactions": st.lists(reaction, max_size=10),
-        })
-
-    return st.integers(1, max_timeout).flatmap(build)
+    return st.binary(min_size=size, max_size=size).map(lambda b: decode_plan(b, max_timeout, max_conn))
